@@ -1,6 +1,7 @@
 CONSTANTS
   Files = {"f1", "f2"}
   NewFile = "f3"
+  SubFile = "g1"
   TempT = "tt"
   Keys = {0}
   Vals = {0}
